@@ -258,7 +258,17 @@ impl<T> Mapping<T> {
 	where
 		T: Tweenable,
 	{
-		let mut amount = (input - self.input_range.0) / (self.input_range.1 - self.input_range.0);
+		let input_span = self.input_range.1 - self.input_range.0;
+		let mut amount = if input_span == 0.0 {
+			// an empty input range is a step at that value (0.0 / 0.0 would be NaN)
+			if input < self.input_range.0 {
+				0.0
+			} else {
+				1.0
+			}
+		} else {
+			(input - self.input_range.0) / input_span
+		};
 		amount = amount.clamp(0.0, 1.0);
 		amount = self.easing.apply(amount);
 		T::interpolate(self.output_range.0, self.output_range.1, amount)
